@@ -201,3 +201,21 @@ contract(UTIL, 'full_for_fill',
         'implies(not is_none(dtype), holds(result.dtype, dtype))',                 # and so does the data it will be merged with
         'implies(is_none(dtype), result.dtype == ufd("dtype_of_element", fill_value))',
     ])
+
+
+# TypeBlocks.__copy__: the shallow copy holds the same (read-only) arrays under the same directory (C01 / C03 / C08: "returns a new container ... the
+# original is left exactly as it was" rests on the copy being well formed and sharing only frozen arrays); that the lists themselves are new objects is
+# outside the value model of lists here (the G3 ownership obligations cover who may grow them)
+contract(TB, 'TypeBlocks.__copy__',
+    props=['C01', 'C03', 'C08'],
+    params=dict(self='TypeBlocks'), order=['self'], result='TypeBlocks',
+    requires=['Dir(self)', 'Frozen(self)', 'RowDtypeHolds(self)', 'implies(len(self._blocks) == 0, is_none(self._row_dtype))'],
+    calls={'self.__class__': dict(params=dict(blocks='list[arr]', dtypes='list[dtype]', index='list[tuple[int,int]]', shape='tuple[int,int]'), order=[],
+                                  kwonly=['blocks', 'dtypes', 'index', 'shape'], result='TypeBlocks',
+                                  # the raw constructor: fields are the arguments (as TypeBlocks.__raw__; the ghost offsets are those of the receiver, whose directory is copied)
+                                  ensures=['result._blocks == blocks and result._dtypes == dtypes and result._index == index and result._shape == shape and result._offs == self._offs']),
+           'self._dtypes.copy': dict(params={}, order=[], result='list[dtype]', ensures=['result == self._dtypes']),
+           'self._index.copy': dict(params={}, order=[], result='list[tuple[int,int]]', ensures=['result == self._index'])},
+    ensures=['Dir(result)', 'Frozen(result)', 'result._shape == self._shape', 'len(result._blocks) == len(self._blocks)',
+             'forall_in(0, len(self._blocks), lambda k: at(result._blocks, k) == at(self._blocks, k))',
+             'result._index == self._index and result._dtypes == self._dtypes'])
